@@ -221,12 +221,8 @@ func Check(c Case) (r pbt.Result) {
 	refOut := make([][][]float64, c.N)
 	refState := make([][]float64, c.N)
 	for i := 0; i < c.N; i++ {
-		var st []float64
-		if width > 0 {
-			st = append([]float64(nil), stateRows[i]...)
-		} else {
-			st = []float64{}
-		}
+		// the cell alone has its own state row: its own width, without the padding a shared array needs
+		st := append([]float64{}, resolved[i]...)
 		refOut[i], refState[i] = simref.Run1(c.Model, cells[i%P], blocks[i%B], st)
 	}
 
@@ -290,8 +286,17 @@ func Check(c Case) (r pbt.Result) {
 	gs := sread()
 	for i := 0; i < c.N; i++ {
 		for j := 0; j < width; j++ {
-			if g, w := gs[i*width+j], refState[i][j]; !simref.SameBits(g, w) {
-				r.Failf("%s N=%d P=%d B=%d: final state[cell %d, %d] = %v, the cell run alone gives %v", c.Model, c.N, P, B, i, j, g, w)
+			g := gs[i*width+j]
+			if j >= len(refState[i]) {
+				// padding of a row narrower than the array (cells with fewer states, extra columns): untouched
+				if !simref.SameBits(g, 0) {
+					r.Failf("%s N=%d P=%d B=%d: state[cell %d, %d] beyond the cell's own %d states was changed to %v", c.Model, c.N, P, B, i, j, len(refState[i]), g)
+					return
+				}
+				continue
+			}
+			if w := refState[i][j]; !simref.SameBits(g, w) {
+				r.Failf("%s N=%d P=%d B=%d: final state[cell %d, %d] = %v, the cell run alone gives %v (row width %d, cell's own %d)", c.Model, c.N, P, B, i, j, g, w, width, len(refState[i]))
 				return
 			}
 		}
